@@ -51,7 +51,9 @@ pub fn cases_c14(tier: &str, seed: u64) -> Vec<Case> {
             for late in [false, true] {
             // late = the followers receive the leader's validate before their own schedule is submitted
             let strat = if late { Strategy::RpcFirst(leader) } else { Strategy::Script(vec![]) };
-            let base = base_scenario(prog, leader, &mask, &inputs, strat.clone(), 0x14000 + pi as u128);
+            let mut base = base_scenario(prog, leader, &mask, &inputs, strat.clone(), 0x14000 + pi as u128);
+            // per party: the same policy with a program that does not type-check (for stray schedules)
+            base.alt_policies = base.policies[0].iter().map(|p| { let mut q = p.clone(); q.program = "pub fn main(a: u8, b: u8) -> u8 { a ^ }".to_string(); q }).collect();
             let steps = if late { pilot_steps(&base).min(2 * n + 4) } else { pilot_steps(&base) };
             let stride = if thorough || late { 1 } else if n == 2 { 2 } else { 5 };
             for k in (0..=steps).filter(|k| k % stride == (seed as usize) % stride || *k < 6) {
@@ -61,6 +63,7 @@ pub fn cases_c14(tier: &str, seed: u64) -> Vec<Case> {
                         Inject::Run { comp: 0, party },
                         Inject::Consts { comp: 0, party, from: (party + 1) % n },
                         Inject::Validate { comp: 0, party },
+                        Inject::AltSchedule { comp: 0, party, alt: party },
                         Inject::MpcMsg { comp: 0, party, from: n },
                         Inject::MpcMsg { comp: 0, party, from: n + 1 },
                         Inject::MpcMsg { comp: 0, party, from: usize::MAX },
@@ -68,7 +71,7 @@ pub fn cases_c14(tier: &str, seed: u64) -> Vec<Case> {
                         Inject::ConstsNonEmpty { comp: 0, party, from: n + 2 },
                         Inject::ConstsNonEmpty { comp: 0, party, from: usize::MAX },
                     ];
-                    if !late && (k % 4 == 1 || k == steps) {
+                    if !late && (k % 4 == 1 || k == steps || k < 16) {
                         injs.push(Inject::MpcMsgBurst { comp: 0, party, from: party, count: 12 });
                         injs.push(Inject::MpcMsgBurst { comp: 0, party, from: n + 1, count: 12 });
                     }
@@ -77,7 +80,7 @@ pub fn cases_c14(tier: &str, seed: u64) -> Vec<Case> {
                         injs.push(Inject::MpcMsg { comp: 0, party, from: party });
                     }
                     if late {
-                        injs.truncate(4);
+                        injs.truncate(5);
                     }
                     if !thorough && !late {
                         // quick: rotate through the kinds instead of taking all of them at every point
@@ -89,7 +92,7 @@ pub fn cases_c14(tier: &str, seed: u64) -> Vec<Case> {
                         sc.injections = vec![(When::Step(k), inj.clone())];
                         v.push(Case { prop: "C14", key: format!("{} L{} {}step{} p{} {}", prog.name, leader, if late { "late-followers " } else { "" }, k, party, inj_name(&inj)), sc, progs: vec![(*prog).clone()], inputs: vec![inputs.clone()], out_masks: vec![mask.clone()], leaders: vec![leader], mismatch: None, mt: None });
                         // the same command queued right behind the command that action k causes
-                        if k >= 1 && k <= steps && ii < 4 && (thorough || k < 16) {
+                        if k >= 1 && k <= steps && (ii < 5 || matches!(inj, Inject::MpcMsgBurst { .. })) && (thorough || k < 16) {
                             let mut sc = base.clone();
                             sc.injections = vec![(When::After(k), inj.clone())];
                             v.push(Case { prop: "C14", key: format!("{} L{} {}behind-action{} p{} {}", prog.name, leader, if late { "late-followers " } else { "" }, k, party, inj_name(&inj)), sc, progs: vec![(*prog).clone()], inputs: vec![inputs.clone()], out_masks: vec![mask.clone()], leaders: vec![leader], mismatch: None, mt: None });
@@ -128,6 +131,7 @@ fn judge_c14(c: &Case, rec: &RunRecord) -> Vec<(String, Value)> {
         }
     }
     let mut all_must_err = !rec.injected.is_empty();
+    let mut ends_unscheduled = false;
     for inj in &rec.injected {
         let p = inj.party;
         let sched_t = rec.schedule.iter().find(|s| s.party == p).map(|s| s.t_call);
@@ -156,6 +160,13 @@ fn judge_c14(c: &Case, rec: &RunRecord) -> Vec<(String, Value)> {
             // certainly too late: the party has already sent MPC messages (state Executing or later)
             let executing = rec.rpcs.iter().any(|r| r.kind == RpcKind::Msg && r.from == p && r.fate != "unused" && r.t_issue < inj.t_call);
             if executing { true } else if p == leader { !scheduled_before } else { !validate_released_before }
+        } else if inj.what == "alt-schedule" {
+            // a schedule whose program does not type-check is never acceptable; it may end a state machine
+            // that has no policy yet, but not a computation that is under way
+            if !scheduled_before {
+                ends_unscheduled = true;
+            }
+            true
         } else if inj.what == "validate" {
             // a follower that has already been handed the leader's validate (delivered at an earlier idle
             // point, so it has been processed) is in ValidateRequested or later: a second one is invalid
@@ -175,7 +186,7 @@ fn judge_c14(c: &Case, rec: &RunRecord) -> Vec<(String, Value)> {
         }
     }
     // the computation under way must be undisturbed by commands that were answered with an error
-    if all_must_err && out.is_empty() {
+    if all_must_err && !ends_unscheduled && out.is_empty() {
         if let Some((sig, w)) = c13::judge(rec, &c.progs[0], &c.inputs[0], &c.out_masks[0], 0, c.sc.concurrency) {
             let what = rec.injected.first().map(|i| i.what.clone()).unwrap_or_default();
             out.push((format!("a rejected stray command ({what}) changed the outcome of the computation: {sig}"), w));
